@@ -169,6 +169,11 @@ class SimHooks(Hooks):
             return out
         if name in ('c_str', 'str', 'data') and ('basic_string' in t or 'basic_format' in t):
             return [(q, v) for q, v in I.expr(o, p)]
+        if name == 'size' and 'array<' in t:
+            import re as _re
+            m_ = _re.search(r'array<[^<>]*?,\s*(\d+)\s*>', dqt(o) or t)
+            if m_:
+                return [(p, const(64, int(m_.group(1))))]
         if name == 'size' and ('vector' in t or 'basic_string' in t):
             out = []
             for q, lv in I.lval(o, p):
